@@ -138,4 +138,13 @@ def run(ck):
         ck.ok("V6.family-table", hf.where(), "addressFamily: 4/6 only when both addresses have that family (4 assignments)")
     else:
         ck.violation("V6.family-table", "V6|addressFamily|table", hf.where(), "addressFamily decision table differs from the reference: %s (a `PROXY TCP4` header with one IPv6 address passes the family check)" % "; ".join(bad))
+    ck.rule("V7 Parser::BinaryTokenizer::want (every PROXY v2 field, address block and TLV is read through it): InsufficientInput -- which callers translate into "
+            "\"wait for more bytes\" -- is thrown only with expectMore_ established true. Two::Parse reads the address block and the TLVs from the already complete header "
+            "slice with expectMore = false: there a short field must be a parse error, otherwise a malformed header keeps the connection waiting for ever")
+    bt = ck.facts(["src/parser/BinaryTokenizer.cc"], whole=False)
+    want = bt.fn("Parser::BinaryTokenizer::want")
+    insufficient = lambda ev: ev.get("e") == "throw" and "InsufficientInput" in E.key(ev.get("x") or {})
+    ck.require_fact("V7.need-more-only-if-more-expected", ck.flow(want), insufficient, E.m_is_mem("Parser::BinaryTokenizer::expectMore_"), True, "throw InsufficientInput()",
+                    why="(a tokenizer over complete input would ask for more bytes instead of rejecting)")
+
     ck.assume("prefix consistency and decoded == encoded over all byte prefixes are not decided; BinaryTokenizer's own bounds checks are trusted")
